@@ -197,7 +197,8 @@ def run_real(rp, lm, cfg, tasks, sbox):
     o = make_lm(rp, lm, cfg, sbox)
     out, raw = [], []
     for k, t in enumerate(tasks):
-        task = make_task(rp, t, 'task.%06d' % k, sbox)
+        # '_uid': the same task (uid, sandbox) is placed again, elsewhere: its command is generated anew
+        task = make_task(rp, t, 'task.%06d' % t.get('_uid', k), sbox)
         try:
             can = bool(o.can_launch(task)[0])
         except IndexError:
@@ -313,17 +314,18 @@ def monitor(lm, cfg, t, c):
     return bad
 
 
-def gen_task(rng, lm, cfg):
+def gen_task(rng, lm, cfg, force_n=None):
     nodes = cfg.get('node_idx', list(range(2, 10)))
     cpn   = cfg.get('cpn', 8)
     r = rng.random()
     nslots = rng.choice([1, 1, 2, 3, 4, 6]) if r < 0.9 else rng.choice([0, 43, 50])
+    if force_n: nslots = force_n
     if lm == 'MPIRUN' and nslots == 0: nslots = 1      # mpirun without a placement: no host argument at all, not a command
     if lm in ('MPIRUN', 'MPIEXEC', 'PRTE') and rng.random() < 0.12: nslots = rng.choice([42, 43, 44, 50])   # host list vs host file threshold, every flavour
     if lm in ('FORK', 'SSH', 'RSH'):
         nslots = rng.choice([1, 1, 1, 2, 0]) if lm != 'FORK' else rng.choice([1, 1, 1, 2])
     cpr = rng.choice([1, 1, 2, 3])
-    if lm == 'SRUN' and nslots >= 43 and rng.random() < 0.7:
+    if lm == 'SRUN' and nslots >= 43 and (force_n or rng.random() < 0.7):
         nodes = list(range(2, 60))
     if lm != 'SRUN' and lm != 'IBRUN' and nslots >= 42:
         nodes = list(nodes) + [n for n in range(10, 40) if n not in nodes]      # room for that many ranks
@@ -346,8 +348,10 @@ def gen_task(rng, lm, cfg):
     if lm == 'FORK': pool = [rng.choice([0, cfg['self'], cfg['self'], 1, 10, 11, 100, 5])]
     used = {}
     cur = rng.choice(pool)
+    spread = rng.sample(pool, nslots) if (force_n and lm == 'SRUN' and len(pool) >= nslots) else None    # one rank per node
     for i in range(nslots):
-        if rng.random() < 0.45: cur = rng.choice(pool)
+        if spread: cur = spread[i]
+        elif rng.random() < 0.45: cur = rng.choice(pool)
         free = [c for c in range(cpn) if c not in used.setdefault(cur, set())]
         if len(free) < cpr:
             cands = [h for h in pool if len([c for c in range(cpn) if c not in used.setdefault(h, set())]) >= cpr]
@@ -396,6 +400,12 @@ def run(ctx):
             tasks = [gen_task(rng, lm, cfg) for _ in range(rng.randint(2, 5))]
             # the first task comes back at the end: a launcher that keeps something of the tasks in
             # between answers differently the second time
+            if lm == 'SRUN' and rng.random() < 0.5:
+                # two placements over more than 42 nodes for one task: the node file must be the second one's
+                tasks[0] = gen_task(rng, lm, cfg, force_n=rng.choice([43, 46, 50]))
+                tasks.append(dict(gen_task(rng, lm, cfg, force_n=rng.choice([43, 45, 50])), _uid=0))
+            else:
+                tasks.append(dict(tasks[1], _uid=0))
             tasks.append(tasks[0])
             res, raw = run_real(rp, lm, cfg, tasks, sbox)
             if raw[0] is not None and raw[-1] is not None:
